@@ -727,37 +727,44 @@ impl SvgElement {
     /// Calculate bounding box of target_shape inside self
     pub fn inscribed_bbox(&self, target_shape: &str) -> Result<Option<BoundingBox>> {
         let zstr = "0".to_owned();
-        match (target_shape, self.name.as_str()) {
+        let transform = match self.get_attr("transform") {
+            Some(transform) => Some(transform.parse::<TransformAttr>()?),
+            None => None,
+        };
+        // (turned or sheared, what lies within the bounding box of a circle or an
+        // ellipse need not lie within its image; what lies within this does)
+        let turned = transform.as_ref().is_some_and(|t| !t.keeps_boxes());
+        let number = |name: &str| strp(self.attrs.get(name).unwrap_or(&zstr));
+        let inner = match (target_shape, self.name.as_str()) {
             // rect inside circle
-            ("rect", "circle") => {
+            (_, "circle") if target_shape == "rect" || turned => {
                 if let Some(r) = self.attrs.get("r") {
-                    let cx = self.attrs.get("cx").unwrap_or(&zstr);
-                    let cy = self.attrs.get("cy").unwrap_or(&zstr);
-                    let cx = strp(cx)?;
-                    let cy = strp(cy)?;
+                    let (cx, cy) = (number("cx")?, number("cy")?);
                     let r = strp(r)? * FRAC_1_SQRT_2;
-                    self.transformed(Some(BoundingBox::new(cx - r, cy - r, cx + r, cy + r)))
+                    Some(BoundingBox::new(cx - r, cy - r, cx + r, cy + r))
                 } else {
-                    Ok(None)
+                    None
                 }
             }
             // rect inside ellipse
-            ("rect", "ellipse") => {
+            (_, "ellipse") if target_shape == "rect" || turned => {
                 if let (Some(rx), Some(ry)) = (self.attrs.get("rx"), self.attrs.get("ry")) {
-                    let cx = self.attrs.get("cx").unwrap_or(&zstr);
-                    let cy = self.attrs.get("cy").unwrap_or(&zstr);
-                    let cx = strp(cx)?;
-                    let cy = strp(cy)?;
+                    let (cx, cy) = (number("cx")?, number("cy")?);
                     let rx = strp(rx)? * FRAC_1_SQRT_2;
                     let ry = strp(ry)? * FRAC_1_SQRT_2;
-                    self.transformed(Some(BoundingBox::new(cx - rx, cy - ry, cx + rx, cy + ry)))
+                    Some(BoundingBox::new(cx - rx, cy - ry, cx + rx, cy + ry))
                 } else {
-                    Ok(None)
+                    None
                 }
             }
             // Trivial cases: same shape
-            _ => self.bbox(),
-        }
+            _ => self.local_bbox()?,
+        };
+        // (a transform which turns the box leaves a parallelogram: the box within it)
+        Ok(match (transform, inner) {
+            (Some(transform), Some(inner)) => Some(transform.apply_inside(&inner)),
+            (_, inner) => inner,
+        })
     }
 
     pub fn get_target_element(&self, ctx: &impl ElementMap) -> Result<SvgElement> {
